@@ -662,6 +662,7 @@ func (c *ExpressionParser) performSyntaxAnalysisAtLevel6() error {
 			primitiveToken := c.getCurrentToken()
 			if primitiveToken.Type() != RightSquareBrace {
 				err = errors.NewSyntaxError("", errors.ErrMissedCloseSquareBracket, "Expected ']' was not found", primitiveToken.Line(), primitiveToken.Column())
+				return err
 			}
 
 			c.moveToNextToken()
